@@ -355,6 +355,39 @@ func c16(c *core.Ctx) {
 				fs, bs := fieldFrom(got["IsServerStream"])
 				okFlags := fc == "ClientStreams" && fs == "ServerStreams" && bc != nil && bs != nil && core.QualNamedOf(bc.Type()) == grpcPkg+".StreamDesc"
 				c.Check(okFlags, key+":flags", al.Pos(), "IsClientStream←ClientStreams, IsServerStream←ServerStreams", fmt.Sprintf("stream flags are mapped IsClientStream←%s, IsServerStream←%s", fc, fs))
+				// the descriptor whose flags are reported is the one whose Handler is dispatched
+				if okFlags {
+					root := fn
+					for root.Parent() != nil {
+						root = root.Parent()
+					}
+					sameDesc := false
+					nH := 0
+					core.InstrsDeep(root, func(f *ssa.Function, x ssa.Instruction) {
+						v, ok := x.(ssa.Value)
+						if !ok {
+							return
+						}
+						hb, hf, isF := core.FieldOf(v)
+						if !isF || hf != "Handler" || core.QualNamedOf(hb.Type()) != grpcPkg+".StreamDesc" {
+							return
+						}
+						if _, isLoad := v.(*ssa.UnOp); !isLoad {
+							return
+						}
+						nH++
+						hbr := core.ResolveFree(hb)
+						for _, b := range []ssa.Value{bc, bs} {
+							if b == hbr || core.SameVal(b, hbr) || sameOrigins(b, hbr) || sameOrigins(core.ResolveFree(b), hbr) {
+								sameDesc = true
+							} else {
+								sameDesc = false
+								return
+							}
+						}
+					})
+					c.Check(nH > 0 && sameDesc, key+":flags-of-dispatched-desc", al.Pos(), "the flags come from the very descriptor whose Handler is dispatched", "the streaming flags are read from a descriptor other than the one whose Handler is dispatched (e.g. the caller-supplied client-side StreamDesc): interceptors are told the caller's claim, not the registered method's flags")
+				}
 				// FullMethod
 				fm := got["FullMethod"]
 				okFM := false
